@@ -193,7 +193,18 @@ func forType(t reflect.Type, seen map[reflect.Type]bool, ignore bool, schemas ma
 		s.Minimum = f64Ptr(0)
 		s.Maximum = f64Ptr(math.MaxUint32)
 
-	case reflect.Float32, reflect.Float64:
+	case reflect.Float32:
+		// Like the sized integers: encoding/json refuses numbers outside the range.
+		// A number decodes into a float32 if it rounds to a finite float32, that is,
+		// if its magnitude is below the midpoint between MaxFloat32 and 2^128.
+		// (MaxFloat32 itself is no use as a bound: encoding/json writes it as
+		// 3.4028235e+38, which is slightly larger.)
+		s.Type = "number"
+		limit := math.Ldexp(1<<25-1, 103) // (2 - 2^-24) * 2^127
+		s.ExclusiveMinimum = f64Ptr(-limit)
+		s.ExclusiveMaximum = f64Ptr(limit)
+
+	case reflect.Float64:
 		s.Type = "number"
 
 	case reflect.Interface:
